@@ -220,7 +220,7 @@ def check_call(ctx, case, inp, fn_name, kw):
         ctx.count("outcome_" + cls)
         if cls not in case["allowed"]:
             ctx.count(f"crash[{label}/{cls}]@{inp.source.split('/')[0]}")
-            ctx.violation(f"C35/{label}/{cls}/{site_of(call.exc)}", instance(),
+            ctx.violation(f"C35/{label}/{cls}/{site_of(call.exc)}/{inp.source.split('/')[0]}", instance(),
                           f"{head} raised {cls}: {str(call.exc)[:120]} [input class {inp.source}]", subcheck="class")
             return False
         if not str(call.exc).strip():
